@@ -13,6 +13,7 @@ import Cog.Drv.MergeDrv
 import Cog.Drv.EqualsDrv
 import Cog.Drv.ValidateDrv
 import Cog.Drv.ClosedDrv
+import Cog.Drv.DeclDrv
 import Cog.Drv.JsOutDrv
 import Cog.Drv.DefaultsDrv
 import Cog.Drv.PyDrv
@@ -42,6 +43,8 @@ def handle (line : String) : String :=
   | "nameops" :: rest => nameopsLine (" ".intercalate rest)
   | "namesok" :: rest => namesokLine (" ".intercalate rest)
   | "c05witness" :: rest => c05witnessLine (" ".intercalate rest)
+  | "c05chains" :: _ => c05chainsLine
+  | "c05pass" :: rest => c05passLine (" ".intercalate rest)
   | "wt" :: rest => wtLine (" ".intercalate rest)
   | "c17witness" :: rest => c17witnessLine (" ".intercalate rest)
   | _ => "bad-request"
@@ -57,6 +60,7 @@ def handleIO (line : String) : IO String := do
   | "govalidate" :: rest => govalidateLine (" ".intercalate rest)
   | "gostrict" :: rest => gostrictLine (" ".intercalate rest)
   | "c08hyp" :: rest => c08hypLine (" ".intercalate rest)
+  | "godecl" :: rest => godeclLine (" ".intercalate rest)
   | "jsemit" :: rest => jsemitLine (" ".intercalate rest)
   | "jsvalid" :: rest => jsvalidLine (" ".intercalate rest)
   | "jshyp" :: rest => jshypLine (" ".intercalate rest)
